@@ -570,7 +570,7 @@ func jitterWorker(seed int64, keep obiseq.SequencePredicate) obiseq.SeqSliceWork
 }
 
 func recordC03(env *Env) {
-	ops := []string{"pool_workers", "pool_filter", "pool", "pipeline", "files", "concat"}
+	ops := []string{"pool_workers", "pool_filter", "pool", "pipeline", "files", "concat", "sortlate"}
 	evs := make([]streamEvent, env.n)
 	for i := range evs {
 		n := env.rng.Intn(10)
@@ -592,6 +592,27 @@ func recordC03(env *Env) {
 		if e.Op == "concat" || e.Op == "pool" {
 			e.Push = ident(n)
 		}
+		if e.Op == "sortlate" {
+			// a long stream in which one batch arrives after many of its successors (one very slow worker)
+			n = 40 + env.rng.Intn(60)
+			e.Sizes = randSizes(env, n)
+			tot = 0
+			for _, s := range e.Sizes {
+				tot += s
+			}
+			e.Keep = make([]int, tot)
+			late := env.rng.Intn(n / 2)
+			delay := 1 + env.rng.Intn(n-late-1)
+			e.Push = []int{}
+			for b := 0; b < n; b++ {
+				if b != late {
+					e.Push = append(e.Push, b)
+				}
+				if b == late+delay {
+					e.Push = append(e.Push, late)
+				}
+			}
+		}
 		evs[i] = e
 	}
 	seed := env.seed
@@ -601,6 +622,8 @@ func recordC03(env *Env) {
 		var it obiiter.IBioSequence
 		src := func() obiiter.IBioSequence { return source(batchesOf(e.Sizes, 0), e.Push) }
 		switch e.Op {
+		case "sortlate":
+			it = src().SortBatches()
 		case "pool_workers": // raw output of the worker pool (unsorted)
 			it = src().MakeISliceWorker(jitterWorker(seed+int64(i), keepPred(e.Keep)), false, e.W)
 		case "pool_filter": // FilterOn = workers + Rebatch
